@@ -72,4 +72,8 @@ def extra(ctx, res):
                 check_pure(ctx, eff, res, fi, roots=(fi.params[0].arg,))
     with res.guard("F-FWD in the directed degree module"):
         F.check_forwarding(ctx, res, dfuncs)
+    with res.guard("general lint pack over the property's files"):
+        from ..lints import check_pack
+
+        check_pack(ctx, res, "C02")
     return res
